@@ -1,6 +1,7 @@
 (** Property C08 — the theorems the check counts as obligations.  Nothing but
     statements closed by [exact] and [Print Assumptions]. *)
-From HS Require Import Base.Prelude C08.Model C08.Policies C08.PolicyThms C08.Pipeline C08.IndModel C08.IndThms.
+From HS Require Import Base.Prelude Base.PyLib C08.Model C08.Policies C08.PolicyThms C08.Pipeline C08.IndModel C08.IndThms
+  Gen.QueuePolicyGen C08.GenTie.
 Local Open Scope Z_scope.
 
 (** Conservation, every policy, every worker kind, EVERY schedule (any pending
@@ -187,3 +188,100 @@ Theorem c08_acquire_respects_limit : forall m w m' r,
   (1 <= w -> (snd (cm_step m (CHasCap w)) = 1 <-> r = 1)).
 Proof. exact acquire_respects_limit. Qed.
 Print Assumptions c08_acquire_respects_limit.
+
+(* ---------------- code level: queue_policy.py as regenerated by py2coq ---------------- *)
+
+(** FIFOQueue / LIFOQueue / PriorityQueue of components/queue_policy.py, as
+    REGENERATED from the source on every run (Gen/QueuePolicyGen.v), refine the
+    policy model: on the code object of a model state ([fifo_obj], [lifo_obj]:
+    the held ids, LIFO newest last; [prio_obj]: heap entries (priority, insert
+    order, id) with the insert counter), every operation returns what the
+    model returns, leaves the object of the model's next state, and does not
+    raise; the order @dataclass(order=True) gives _PriorityEntry is the model's
+    heap order, and heappush keeps the model's sorted list. *)
+Theorem c08_code_policies_refine_model : forall cap l ctr h it balk now,
+  (let '(s', ok) := pol_push balk it (PFifo cap l) in
+   exists l', s' = PFifo cap l' /\ FIFOQueue_push (fifo_obj cap l) (iid it) = (fifo_obj cap l', ok))
+  /\ (let '(s', r, ex) := pol_pop now (PFifo cap l) in
+      ex = [] /\ exists l', s' = PFifo cap l' /\ FIFOQueue_pop (fifo_obj cap l) = Some (fifo_obj cap l', option_map iid r))
+  /\ (FIFOQueue_peek (fifo_obj cap l) = Some (option_map iid (hd_error l))
+      /\ FIFOQueue___len__ (fifo_obj cap l) = pol_len (PFifo cap l)
+      /\ FIFOQueue_is_empty (fifo_obj cap l) = (pol_len (PFifo cap l) =? 0)
+      /\ FIFOQueue_capacity (fifo_obj cap l) = cap)
+  /\ (let '(s', ok) := pol_push balk it (PLifo cap l) in
+      exists l', s' = PLifo cap l' /\ LIFOQueue_push (lifo_obj cap l) (iid it) = (lifo_obj cap l', ok))
+  /\ (let '(s', r, ex) := pol_pop now (PLifo cap l) in
+      ex = [] /\ exists l', s' = PLifo cap l' /\ LIFOQueue_pop (lifo_obj cap l) = Some (lifo_obj cap l', option_map iid r))
+  /\ (LIFOQueue_peek (lifo_obj cap l) = Some (option_map iid (hd_error l))
+      /\ LIFOQueue___len__ (lifo_obj cap l) = pol_len (PLifo cap l)
+      /\ LIFOQueue_is_empty (lifo_obj cap l) = (pol_len (PLifo cap l) =? 0)
+      /\ LIFOQueue_capacity (lifo_obj cap l) = cap)
+  /\ (forall k o e, _PriorityEntry___lt__ (enc (k, o, it)) (enc e) = entry_ltb k o e)
+  /\ (let '(s', ok) := pol_push balk it (PPrio cap ctr h) in
+      exists ctr' h', s' = PPrio cap ctr' h' /\
+      PriorityQueue_push (prio_obj cap ctr h) (iid it) (iprio it) = (prio_obj cap ctr' h', ok))
+  /\ (let '(s', r, ex) := pol_pop now (PPrio cap ctr h) in
+      ex = [] /\ exists h', s' = PPrio cap ctr h' /\
+      PriorityQueue_pop (prio_obj cap ctr h) = Some (prio_obj cap ctr h', option_map iid r))
+  /\ (PriorityQueue_peek (prio_obj cap ctr h) = Some (option_map (fun e : entry => iid (snd e)) (hd_error h))
+      /\ PriorityQueue___len__ (prio_obj cap ctr h) = pol_len (PPrio cap ctr h)
+      /\ PriorityQueue_is_empty (prio_obj cap ctr h) = (pol_len (PPrio cap ctr h) =? 0)
+      /\ PriorityQueue_capacity (prio_obj cap ctr h) = cap).
+Proof.
+  intros cap l ctr h it balk now.
+  exact (conj (tie_fifo_push cap l it balk) (conj (tie_fifo_pop cap l now) (conj (tie_fifo_read cap l)
+        (conj (tie_lifo_push cap l it balk) (conj (tie_lifo_pop cap l now) (conj (tie_lifo_read cap l)
+        (conj (fun k o e => tie_entry_lt k o it e)
+        (conj (tie_prio_push cap ctr h it balk) (conj (tie_prio_pop cap ctr h now) (tie_prio_read cap ctr h)))))))))).
+Qed.
+Print Assumptions c08_code_policies_refine_model.
+
+(** FIFOQueue AS TRANSLATED, from any object (any capacity, any held ids), for
+    EVERY sequence of push / pop: nothing raises; the ids held at the start
+    followed by the accepted ones are exactly the popped ones followed by the
+    ones still held, in that order (no loss, no duplication, arrival order);
+    the capacity field is never written and a capacity respected at the start
+    is respected at the end. *)
+Theorem c08_code_fifo_order : forall ops cap ids,
+  exists q' obs, code_run fifo_code_step (mkFIFOQueue cap ids) ops = Some (q', obs)
+  /\ ids ++ accepted_ids ops obs = popped_ids ops obs ++ FIFOQueue__queue q'
+  /\ FIFOQueue__capacity q' = cap
+  /\ (le_cap (zlen ids) cap -> le_cap (FIFOQueue___len__ q') cap).
+Proof. exact code_fifo_order. Qed.
+Print Assumptions c08_code_fifo_order.
+
+(** LIFOQueue AS TRANSLATED: every pop returns the most recently accepted id
+    not yet popped ([None] exactly when nothing is held). *)
+Theorem c08_code_lifo_order : forall ops cap ids,
+  exists q' obs, code_run lifo_code_step (mkLIFOQueue cap ids) ops = Some (q', obs)
+  /\ lifo_ok ops obs (rev ids)
+  /\ LIFOQueue__capacity q' = cap
+  /\ (le_cap (zlen ids) cap -> le_cap (LIFOQueue___len__ q') cap).
+Proof. exact code_lifo_order. Qed.
+Print Assumptions c08_code_lifo_order.
+
+(** PriorityQueue AS TRANSLATED, started empty, for every operation sequence
+    and every priority [_get_priority] reports: a successful pop returns the
+    item of the entry that the generated dataclass order puts strictly before
+    every entry left in the heap — lowest priority value first, insertion order
+    among equal priorities (stable). *)
+Theorem c08_code_priority_order : forall ops cap,
+  exists q' obs, code_run prio_code_step (mkPriorityQueue cap [] 0) ops = Some (q', obs)
+  /\ PriorityQueue__capacity q' = cap
+  /\ (le_cap 0 cap -> le_cap (PriorityQueue___len__ q') cap)
+  /\ forall q'' x, PriorityQueue_pop q' = Some (q'', Some x) ->
+       exists e, PriorityQueue__heap q' = e :: PriorityQueue__heap q'' /\ _PriorityEntry_item e = x
+         /\ Forall (fun e' => _PriorityEntry___lt__ e e' = true) (PriorityQueue__heap q'').
+Proof. exact code_priority_order. Qed.
+Print Assumptions c08_code_priority_order.
+
+(** The premises are satisfiable and the statements not vacuous: a concrete run. *)
+Example c08_code_fifo_example :
+  code_run fifo_code_step (mkFIFOQueue (Some 2) []) [OPush false (mkit 7); OPush false (mkit 8); OPush false (mkit 9); OPop 0; OPop 0; OPop 0]
+  = Some (mkFIFOQueue (Some 2) [], [(true, None, []); (true, None, []); (false, None, []); (true, Some 7, []); (true, Some 8, []); (true, None, [])]).
+Proof. vm_compute. reflexivity. Qed.
+Example c08_code_priority_example :
+  option_map snd (code_run prio_code_step (mkPriorityQueue None [] 0)
+    [OPush false (MkItem 1 5 0 0 0); OPush false (MkItem 2 3 0 0 0); OPush false (MkItem 3 5 0 0 0); OPush false (MkItem 4 3 0 0 0); OPop 0; OPop 0; OPop 0; OPop 0])
+  = Some [(true, None, []); (true, None, []); (true, None, []); (true, None, []); (true, Some 2, []); (true, Some 4, []); (true, Some 1, []); (true, Some 3, [])].
+Proof. vm_compute. reflexivity. Qed.
